@@ -479,7 +479,8 @@ def dssr_cases_from_templates(tpl, structs, rng, tag, copies):
                 nts = ",".join(make_name(k, rng.choice(recs), taken, rng) for k in d["t"])
                 stacks.append({"has": True, "nts": list(nts), "tsteps": d["steps"]})
         cases.append({"id": f"{tag}-{len(cases)}", "kind": "dssr", "via": "api", "struct": struct["struct"],
-                      "wrapper": rng.choice(["flat", "flat", "models"]), "pairs": pairs, "stacks": stacks})
+                      "wrapper": rng.choice(["flat", "flat", "models", "models-2-5", "models-0-1", "models-3-1"]),
+                      "pairs": pairs, "stacks": stacks})
     return cases
 
 
@@ -505,7 +506,17 @@ def _dssr_document(case, rng_noise=0):
     body = {"num_pairs": len(pairs), "pairs": pairs, "stacks": stacks}
     if case["wrapper"] == "models":
         return {"models": [{"index": 1, "model": 1, "parameters": body}]}
+    if case["wrapper"].startswith("models-"):
+        # an ensemble whose model numbers are not their positions: the LAST entry holds this case's lines (and is
+        # the one asked for by number), the first one holds another model's (no interactions at all)
+        first, asked = (int(x) for x in case["wrapper"].split("-")[1:])
+        return {"models": [{"index": 1, "model": first, "parameters": {"num_pairs": 0, "pairs": [], "stacks": []}},
+                           {"index": 2, "model": asked, "parameters": body}]}
     return body
+
+
+def _dssr_model_arg(case):
+    return int(case["wrapper"].split("-")[2]) if case["wrapper"].startswith("models-") else None
 
 
 def record_dssr(case):
@@ -534,7 +545,8 @@ def record_dssr(case):
         if c["via"] == "api":
             bi = None
             try:
-                bi = parse_dssr_output(path, s3d)
+                bi = parse_dssr_output(path, s3d, _dssr_model_arg(c)) if _dssr_model_arg(c) is not None \
+                    else parse_dssr_output(path, s3d)
             except Exception as e:                       # the code raising is data
                 res["err"] = type(e).__name__
             if bi is not None:
